@@ -563,14 +563,15 @@ pub fn shrink(f: &RunFn, seed: u64, log: Vec<u32>, property: &str, class: &str) 
         let mut hi = best.len();
         while lo < hi {
             let mid = (lo + hi) / 2;
-            if let Some(used) = ok(&best[..mid], &mut execs) {
-                if used.len() < best.len() {
+            match ok(&best[..mid], &mut execs) {
+                Some(used) if used.len() < best.len() => {
                     improved = true;
+                    best = used;
+                    hi = best.len().min(mid);
                 }
-                best = used;
-                hi = best.len().min(mid);
-            } else {
-                lo = mid + 1;
+                _ => {
+                    lo = mid + 1;
+                }
             }
             if execs >= budget_execs {
                 break;
